@@ -148,19 +148,99 @@ theorem tie_DriverQuery (W : Net.World ω) (E : Engine σ) (buf : Bytes) (fuel :
   cases hi : E.initFinished e <;> cases le <;> cases dss <;> cases hp : E.pending e <;>
     simp [Gen.Tls_DriverQuery, driverQuery, driverReceived, Gen.M.bind, Gen.M.pure, codeOf, hi, hp]
 
-/-! ### the entry points, relative to the retry loops
-
-`Gen.Tls_Read` / `Gen.Tls_Write` (the `≤ handshakeStepsMax` retry loops around `SSL_read` / `SSL_write_ex`) are generated,
-but their ties to `tlsRead` / `tlsWrite` are not proved here; the entry points are tied under the hypothesis that the
-loop they call corresponds to the model's (`ReadCorr` / `WriteCorr`). -/
-
 /-- the configuration the generated code corresponds to: the current source, `assert`s compiled out -/
 def CfgN : Cfg := { Cfg.current with asserts := false }
+
+/-! ### the retry loop of `Read(data, size)`
+
+The generated loop counts `i = 1 .. handshakeStepsMax` up, the model's `readLoop` counts the rounds left down.  What the
+engine must promise for the two to agree: a successful `SSL_read(ssl, data, n)` delivers between 1 and `n` bytes (libssl's
+contract; with 0 bytes the C++ would treat the call as failed, the model as a delivery of nothing). -/
+
+/-- libssl's promise for `SSL_read` with a buffer of `size` bytes -/
+def ReadContract (E : Engine σ) (size : Nat) : Prop :=
+  ∀ e, AllLeaves (fun ans out _ => ∀ k, ans = .done k → out ≠ [] ∧ out.length ≤ size) (E.sslRead e size)
+
+theorem stepsMaxN : CfgN.stepsMax = 10 := by decide
+theorem assertsN : CfgN.asserts = false := rfl
+
+/-- the loop of `Read`: `i` rounds left in the model = loop variable `stepsMax + 1 - i` in the C++ -/
+theorem read_loop_tie (W : Net.World ω) (E : Engine σ) (buf : Bytes) (fuel size : Nat) (hs : size < 2147483648)
+    (hE : ReadContract E size) :
+    ∀ (i n : Nat) (iv : Int) (w : TWSt σ ω), iv = 11 - (i : Int) → i ≤ 10 → i < n →
+      ∃ a r, Gen.Tls_Read_loop1 (tlsWorld W E buf) fuel size n iv w
+        = (resOfOut (fun bs => (List.length bs : Int)) (readLoop CfgN W E size i w.s).1,
+           ⟨(readLoop CfgN W E size i w.s).2, a, r⟩) := by
+  have hbm : Int.bmod (size : Int) 4294967296 = size := by
+    rw [Int.bmod_eq_of_le] <;> omega
+  intro i
+  induction i with
+  | zero =>
+    intro n iv w hiv _ hn
+    obtain ⟨n', rfl⟩ : ∃ n', n = n' + 1 := ⟨n - 1, by omega⟩
+    refine ⟨w.ans, w.rx, ?_⟩
+    subst hiv
+    simp (disch := omega) [Gen.Tls_Read_loop1, readLoop, resOfOut, Gen.M.pure]
+  | succ i ih =>
+    intro n iv w hiv hi hn
+    obtain ⟨n', rfl⟩ : ∃ n', n = n' + 1 := ⟨n - 1, by omega⟩
+    have hle : iv ≤ 10 := by omega
+    have hspec := (interp_spec (W := W) _ _ (hE w.s.e) w.s).2.2.1
+    simp only [Gen.Tls_Read_loop1, readLoop, readRound, Gen.M.bind, hbm, tw_sslRead, Int.toNat_natCast, hle, if_true]
+    rcases hI : interp W w.s (E.sslRead w.s.e size) with ⟨o, s1⟩
+    rw [hI] at hspec
+    rcases o with ⟨ans, out⟩ | x | m
+    · have hc := hspec ans out rfl
+      cases hA : ans with
+      | done k =>
+        obtain ⟨hne, hlen⟩ := hc k hA
+        have hpos : 0 < out.length := List.length_pos_iff.mpr hne
+        refine ⟨.done k, out, ?_⟩
+        have h1 : ¬ ((out.length : Int) ≤ 0) := by omega
+        have h2 : (out.length : Int) % 18446744073709551616 = out.length := by omega
+        have hr : readRes (SslAns.done k) out = (out.length : Int) := rfl
+        simp (disch := omega) only [hr, if_neg, if_pos]
+        simp [resOfOut, Gen.M.pure, h2]
+      | _ =>
+        all_goals
+          simp only [readRes, tie_HandleResult, Gen.M.bind]
+          rcases hH : handleResult W (noteCall E s1 true [] _) _ with ⟨ho, s2⟩
+          rcases ho with b | x | m
+          · cases b
+            · exact ⟨ans, out, by simp [hA, hH, resOfOut, Gen.M.pure, Gen.M.bind, tie_HandleResult, assertsN]⟩
+            · obtain ⟨a, r, h⟩ := ih n' (iv + 1) ⟨s2, ans, out⟩ (by omega) (by omega) (by omega)
+              simp only [hA] at h
+              exact ⟨a, r, by simp [hA, hH, resOfOut, Gen.M.pure, Gen.M.bind, tie_HandleResult, assertsN, h]⟩
+          · exact ⟨ans, out, by simp [hA, hH, resOfOut, Gen.M.bind, tie_HandleResult]⟩
+          · exact ⟨ans, out, by simp [hA, hH, resOfOut, Gen.M.bind, tie_HandleResult]⟩
+    · exact ⟨w.ans, w.rx, by simp [resOfOut]⟩
+    · exact ⟨w.ans, w.rx, by simp [resOfOut]⟩
+
+/-! ### the entry points, relative to the retry loops
+
+The entry points are first tied under the hypothesis that the retry loop they call corresponds to the model's (`ReadCorr` /
+`WriteCorr`, lemmas `*_rel`); `ReadCorr` is a theorem (`tie_Read`), so the receiving entry points are tied unconditionally at
+the end of this file. -/
 
 /-- "`Gen.Tls_Read` corresponds to `tlsRead`" (count for bytes; the final world is the model's final state) -/
 def ReadCorr (W : Net.World ω) (E : Engine σ) (buf : Bytes) (fuel size : Nat) : Prop :=
   ∀ w : TWSt σ ω, ∃ a r, Gen.Tls_Read (tlsWorld W E buf) fuel size w
     = (resOfOut (fun bs => (List.length bs : Int)) (tlsRead CfgN W E w.s size).1, ⟨(tlsRead CfgN W E w.s size).2, a, r⟩)
+
+/-- `Read(data, size)`: `HandleLastError()`, then the retry loop -/
+theorem tie_Read (W : Net.World ω) (E : Engine σ) (buf : Bytes) (fuel size : Nat) (hs : size < 2147483648)
+    (hE : ReadContract E size) (hf : 10 < fuel) : ReadCorr W E buf fuel size := by
+  intro w
+  simp only [Gen.Tls_Read, tlsRead, Gen.M.bind, tie_HandleLastError, stepsMaxN]
+  rcases handleLastError W w.s with ⟨o, s'⟩
+  rcases o with b | x | m
+  · cases b
+    · exact ⟨w.ans, w.rx, by simp [resOfOut, Gen.M.pure]⟩
+    · obtain ⟨a, r, h⟩ := read_loop_tie W E buf fuel size hs hE 10 (Gen.loopFuel fuel) 1 ⟨s', w.ans, w.rx⟩ (by omega)
+        (by omega) (by simp only [Gen.loopFuel]; omega)
+      exact ⟨a, r, by simp [resOfOut, h]⟩
+  · exact ⟨w.ans, w.rx, by simp [resOfOut]⟩
+  · exact ⟨w.ans, w.rx, by simp [resOfOut]⟩
 
 def WriteCorr (W : Net.World ω) (E : Engine σ) (buf : Bytes) (fuel : Nat) : Prop :=
   ∀ w : TWSt σ ω, ∃ a r, Gen.Tls_Write (tlsWorld W E buf) fuel 0 buf.length w
@@ -168,7 +248,7 @@ def WriteCorr (W : Net.World ω) (E : Engine σ) (buf : Bytes) (fuel : Nat) : Pr
 
 /-- `Receive(data, size, timeout)`: `nullopt` for no bytes, and (319faf2) a stale WANT_READ is reset once the
 handshake is finished -/
-theorem tie_ReceiveT (W : Net.World ω) (E : Engine σ) (buf : Bytes) (fuel size : Nat) (hR : ReadCorr W E buf fuel size)
+theorem receiveT_rel (W : Net.World ω) (E : Engine σ) (buf : Bytes) (fuel size : Nat) (hR : ReadCorr W E buf fuel size)
     (t : Int) (w : TWSt σ ω) :
     ∃ a r, Gen.Tls_ReceiveT (tlsWorld W E buf) fuel size t w
       = (resOfOut (fun bs => if bs = [] then none else some (List.length bs : Int)) (receiveT CfgN W E w.s size t).1,
@@ -219,7 +299,7 @@ theorem prepWritable_eq (g : Glue) (e : σ) (ww : ω) :
 
 /-- `Receive(data, size)` (driver: readable): zero budget, `isReadable`, a cached WANT_READ forgotten; afterwards a
 stale error is reset when nothing was read and the handshake is finished -/
-theorem tie_ReceiveReadable (W : Net.World ω) (E : Engine σ) (buf : Bytes) (fuel size : Nat) (hR : ReadCorr W E buf fuel size)
+theorem receiveReadable_rel (W : Net.World ω) (E : Engine σ) (buf : Bytes) (fuel size : Nat) (hR : ReadCorr W E buf fuel size)
     (w : TWSt σ ω) :
     ∃ a r, Gen.Tls_ReceiveReadable (tlsWorld W E buf) fuel size w
       = (resOfOut (fun bs => (List.length bs : Int)) (receiveReadable CfgN W E w.s size).1,
@@ -265,7 +345,7 @@ theorem tie_SendSomeWritable (W : Net.World ω) (E : Engine σ) (buf : Bytes) (f
 
 /-- `DriverPending()`: nothing when the handshake is finished; otherwise "deemed writable" and one `Read` into a local
 buffer of 64 bytes, which must not deliver application data -/
-theorem tie_DriverPending (W : Net.World ω) (E : Engine σ) (buf : Bytes) (fuel : Nat) (hR : ReadCorr W E buf fuel 64)
+theorem driverPending_rel (W : Net.World ω) (E : Engine σ) (buf : Bytes) (fuel : Nat) (hR : ReadCorr W E buf fuel 64)
     (w : TWSt σ ω) :
     ∃ a r, Gen.Tls_DriverPending (tlsWorld W E buf) fuel w
       = (resOfOut id (driverPending CfgN W E w.s).1,
@@ -293,5 +373,29 @@ theorem tie_DriverPending (W : Net.World ω) (E : Engine σ) (buf : Bytes) (fuel
        · simp [h, resOfOut, setLastError, errOf]
        · simp [h, resOfOut, setLastError, errOf])
   · simp [Gen.Tls_DriverPending, driverPending, Gen.M.bind, Gen.M.pure, hf, resOfOut]
+
+/-! ### the receiving entry points, unconditionally (given libssl's `SSL_read` contract, a buffer below 2 GiB and fuel for
+the `handshakeStepsMax` rounds) -/
+
+theorem tie_ReceiveT (W : Net.World ω) (E : Engine σ) (buf : Bytes) (fuel size : Nat) (hs : size < 2147483648)
+    (hE : ReadContract E size) (hf : 10 < fuel) (t : Int) (w : TWSt σ ω) :
+    ∃ a r, Gen.Tls_ReceiveT (tlsWorld W E buf) fuel size t w
+      = (resOfOut (fun bs => if bs = [] then none else some (List.length bs : Int)) (receiveT CfgN W E w.s size t).1,
+         ⟨(receiveT CfgN W E w.s size t).2, a, r⟩) :=
+  receiveT_rel W E buf fuel size (tie_Read W E buf fuel size hs hE hf) t w
+
+theorem tie_ReceiveReadable (W : Net.World ω) (E : Engine σ) (buf : Bytes) (fuel size : Nat) (hs : size < 2147483648)
+    (hE : ReadContract E size) (hf : 10 < fuel) (w : TWSt σ ω) :
+    ∃ a r, Gen.Tls_ReceiveReadable (tlsWorld W E buf) fuel size w
+      = (resOfOut (fun bs => (List.length bs : Int)) (receiveReadable CfgN W E w.s size).1,
+         ⟨(receiveReadable CfgN W E w.s size).2, a, r⟩) :=
+  receiveReadable_rel W E buf fuel size (tie_Read W E buf fuel size hs hE hf) w
+
+theorem tie_DriverPending (W : Net.World ω) (E : Engine σ) (buf : Bytes) (fuel : Nat) (hE : ReadContract E 64)
+    (hf : 10 < fuel) (w : TWSt σ ω) :
+    ∃ a r, Gen.Tls_DriverPending (tlsWorld W E buf) fuel w
+      = (resOfOut id (driverPending CfgN W E w.s).1,
+         if E.initFinished w.s.e then w else ⟨(driverPending CfgN W E w.s).2, a, r⟩) :=
+  driverPending_rel W E buf fuel (tie_Read W E buf fuel 64 (by decide) hE hf) w
 
 end SockModel.Props.C18Tie
